@@ -8,3 +8,9 @@ mod simple_avx;
 
 #[cfg(target_arch = "aarch64")]
 mod simple_neon;
+
+#[cfg(all(feature = "verif-hooks", target_arch = "x86_64"))]
+pub(crate) mod verif_exports {
+    pub(crate) use super::simple_avx::{dot_similarity_avx, euclid_similarity_avx};
+    pub(crate) use super::simple_sse::{dot_similarity_sse, euclid_similarity_sse};
+}
